@@ -585,3 +585,179 @@ func DirectedParkedPreCommits(mons ...vnet.Monitor) *Built {
 	finish(c)
 	return &Built{C: c, Spec: Spec{Profile: "directed-parked-precommits", Idx: -1, Seed: c.Cfg.Seed}}
 }
+
+// DirectedWatchFlagOff: the recorded C10 finding (DESIGN 5.19). Validator 1 starts with its
+// watch-only flag set (the library arms no timer for it), the application then switches the flag
+// off and the primary's proposal arrives: validator 1 answers it, i.e. takes an active part, and
+// returns without any timer armed for its epoch.
+func DirectedWatchFlagOff(mons ...vnet.Monitor) *Built {
+	cfg := vnet.Config{Seed: 779, Profile: "directed-watch-flag-off", N: 4, BaseHeight: 7, Heights: 1, AMEV: -1, TPB: time.Second,
+		Epoch: time.Date(2031, 5, 1, 0, 0, 0, 0, time.UTC).UnixNano(), MaxSteps: 1000}
+	cfg.GenesisTs = uint64(cfg.Epoch) - uint64(cfg.TPB)
+	cfg.K.SlowNode, cfg.K.ResetDelayNode = -1, -1
+	cfg.Roles = make([]vnet.Role, 4)
+	cfg.WatchFlag = []bool{false, true, false, false}
+	c := vnet.NewCluster(cfg, mons...)
+	for i := 3; i >= 0; i-- {
+		c.Nodes[i].Start() // height 8: validator 0 is the primary, starts last and proposes
+	}
+	c.Nodes[1].Watch = false
+	deliverWhere(c, func(e *vnet.Envelope) bool { return e.To == 1 && e.P.T == dbft.PrepareRequestType })
+	finish(c)
+	return &Built{C: c, Spec: Spec{Profile: cfg.Profile, Idx: -1, Seed: cfg.Seed}}
+}
+
+// DirectedCommitThenWatch: the recorded C03 finding (DESIGN 5.19). Validator 1 commits in view 0, the
+// application then sets its watch-only flag; the three others time out and ask for view 1. The commit
+// lock is conditioned on !WatchOnly(), so validator 1 follows the view change although it has
+// broadcast a commit at this height.
+func DirectedCommitThenWatch(mons ...vnet.Monitor) *Built {
+	cfg := vnet.Config{Seed: 780, Profile: "directed-commit-then-watch", N: 4, BaseHeight: 7, Heights: 1, AMEV: -1, TPB: time.Second,
+		Epoch: time.Date(2031, 5, 1, 0, 0, 0, 0, time.UTC).UnixNano(), MaxSteps: 1000}
+	cfg.GenesisTs = uint64(cfg.Epoch) - uint64(cfg.TPB)
+	cfg.K.SlowNode, cfg.K.ResetDelayNode = -1, -1
+	cfg.Roles = make([]vnet.Role, 4)
+	c := vnet.NewCluster(cfg, mons...)
+	h := cfg.BaseHeight + 1
+	for i := 3; i >= 0; i-- {
+		c.Nodes[i].Start() // height 8: validator 0 is the primary, starts last and proposes
+	}
+	x := c.Nodes[1]
+	// the proposal reaches everybody, the responses reach validator 1 only: it alone commits
+	deliverWhere(c, func(e *vnet.Envelope) bool { return e.P.T == dbft.PrepareRequestType })
+	deliverWhere(c, func(e *vnet.Envelope) bool { return e.P.T == dbft.PrepareResponseType && e.To == x.ID })
+	x.Watch = true
+	for _, id := range []int{0, 2, 3} {
+		c.Nodes[id].Timeout(h, 0, "scripted") // asks for recovery: nobody but the primary has been heard yet
+	}
+	deliverWhere(c, func(e *vnet.Envelope) bool { return e.P.T == dbft.RecoveryRequestType && e.To != x.ID })
+	for _, id := range []int{0, 2, 3} {
+		c.Nodes[id].Timeout(h, 0, "scripted") // now a change view request
+	}
+	deliverWhere(c, func(e *vnet.Envelope) bool { return e.P.T == dbft.ChangeViewType && e.To == x.ID })
+	// the others change view as well; the flag is switched off again; the primary of view 1 (validator 3)
+	// proposes and validator 1 collects M preparations in view 1: it must not sign a second block,
+	// whatever it sends now is its original commit
+	deliverWhere(c, func(e *vnet.Envelope) bool { return e.P.T == dbft.ChangeViewType })
+	x.Watch = false
+	p3 := c.Nodes[3]
+	if dl, pending := p3.Timer.Deadline(); pending && p3.D.ViewNumber == 1 {
+		c.Clock = dl
+		p3.FireTimer()
+	}
+	// ... the responses overtake the proposal on their way to validator 1, so that the proposal completes its M preparations
+	deliverWhere(c, func(e *vnet.Envelope) bool { return e.P.T == dbft.PrepareRequestType && e.P.View == 1 && e.To != x.ID })
+	deliverWhere(c, func(e *vnet.Envelope) bool { return e.P.T == dbft.PrepareResponseType && e.P.View == 1 })
+	deliverWhere(c, func(e *vnet.Envelope) bool { return e.P.T == dbft.PrepareRequestType && e.P.View == 1 })
+	deliverWhere(c, func(e *vnet.Envelope) bool { return e.P.T == dbft.PrepareResponseType && e.P.View == 1 })
+	deliverWhere(c, func(e *vnet.Envelope) bool { return e.P.T == dbft.CommitType })
+	finish(c)
+	return &Built{C: c, Spec: Spec{Profile: cfg.Profile, Idx: -1, Seed: cfg.Seed}}
+}
+
+// DirectedLoneCommitter: a scripted partition. k <= F validators - the primaries of views 1..k of the
+// height - receive all preparations of view 0 and commit, then are cut off before their commits
+// leave; the preparations of the others are lost. The others ask for recovery, then for view 1, and
+// enter it. The partition heals (GST). The committed validators stay locked in view 0, so views
+// 1..k have no proposer: the others have to learn about the commits from recovery messages, keep
+// asking for view changes and decide in view k+1; the locked validators follow from the commits or
+// the ledger.
+func DirectedLoneCommitter(rng *rand.Rand, mons ...vnet.Monitor) *Built {
+	n, k := 4, 1
+	amev := int64(-1)
+	base := uint32(3)
+	if rng != nil {
+		n = []int{4, 5, 7, 7, 10}[rng.Intn(5)]
+		k = 1 + rng.Intn((n-1)/3)
+		base = uint32(1 + rng.Intn(50))
+		if rng.Intn(4) == 0 {
+			amev = 0
+		}
+	}
+	cfg := vnet.Config{Seed: 993, Profile: "directed-lone-committer", N: n, BaseHeight: base, Heights: 2, AMEV: amev, TPB: time.Second,
+		Epoch: time.Date(2031, 5, 1, 0, 0, 0, 0, time.UTC).UnixNano(), MaxSteps: 60000}
+	if rng != nil {
+		cfg.Seed = rng.Int63()
+	}
+	cfg.GenesisTs = uint64(cfg.Epoch) - uint64(cfg.TPB)
+	cfg.K = vnet.Knobs{Sync: true, PSyncLedger: 0.01, SlowNode: -1, ResetDelayNode: -1}
+	cfg.Roles = make([]vnet.Role, n)
+	c := vnet.NewCluster(cfg, mons...)
+	h := base + 1
+	prim := func(v int) int { return int(((int64(h)-int64(v))%int64(n) + int64(n)) % int64(n)) }
+	locked := map[int]bool{}
+	for v := 1; v <= k; v++ {
+		locked[prim(v)] = true
+	}
+	for i := 0; i < n; i++ {
+		if i != prim(0) {
+			c.Nodes[i].Start()
+		}
+	}
+	c.Nodes[prim(0)].Start() // proposes
+	if dl, pending := c.Nodes[prim(0)].Timer.Deadline(); pending && !c.Nodes[prim(0)].D.RequestSentOrReceived() {
+		c.Clock = dl
+		c.Nodes[prim(0)].FireTimer()
+	}
+	deliverWhere(c, func(e *vnet.Envelope) bool { return e.P.T == dbft.PrepareRequestType })
+	for i := 0; i < 4; i++ { // responses (and, with anti-MEV, pre-commits) reach the future committers only
+		deliverWhere(c, func(e *vnet.Envelope) bool { return locked[e.To] && (e.P.T == dbft.PrepareResponseType || e.P.T == dbft.PreCommitType && locked[e.From]) })
+	}
+	c.Inflight = nil // the cut: nothing else gets through
+	set := []int{}
+	for id := range locked {
+		set = append(set, id)
+	}
+	c.SetCut(set)
+	c.NoteFault()
+	for round := 0; round < 2; round++ {
+		for i := 0; i < n; i++ {
+			if !locked[i] {
+				c.Nodes[i].Timeout(h, 0, "scripted")
+			}
+		}
+		for i := 0; i < 3; i++ {
+			deliverWhere(c, func(e *vnet.Envelope) bool { return !locked[e.To] })
+		}
+	}
+	c.SetCut(nil)
+	c.NoteFault()
+	c.Run(nil)
+	return &Built{C: c, Spec: Spec{Profile: cfg.Profile, Idx: -1, Seed: cfg.Seed}}
+}
+
+// DirectedCommitSplit: the recorded C09 finding "stall:commit-split" (DESIGN 5.20), four honest
+// validators, no loss, only delays and timeouts. Height 3: validator 3 proposes. All backups first
+// hear from each other (a round of recovery requests), then the proposal reaches validator 0 only and
+// the three backups time out and ask for view 1. Validators 0 and 2 collect the three requests and
+// enter view 1. The proposal and validator 0's response now reach validator 1, which completes M
+// preparations and commits in view 0 (asking for a view change does not stop a node from committing);
+// the primary does the same. Two validators are commit-locked in view 0, two are in view 1: neither
+// view can ever reach M = 3 commits, although the network is synchronous from here on.
+func DirectedCommitSplit(mons ...vnet.Monitor) *Built {
+	cfg := vnet.Config{Seed: 994, Profile: "directed-commit-split", N: 4, BaseHeight: 2, Heights: 1, AMEV: -1, TPB: time.Second,
+		Epoch: time.Date(2031, 5, 1, 0, 0, 0, 0, time.UTC).UnixNano(), MaxSteps: 3000, MaxClock: 400 * time.Second}
+	cfg.GenesisTs = uint64(cfg.Epoch) - uint64(cfg.TPB)
+	cfg.K = vnet.Knobs{Sync: true, SlowNode: -1, ResetDelayNode: -1}
+	cfg.Roles = make([]vnet.Role, 4)
+	c := vnet.NewCluster(cfg, mons...)
+	h := cfg.BaseHeight + 1
+	for _, id := range []int{0, 1, 2, 3} {
+		c.Nodes[id].Start() // validator 3 is the primary of (3, 0) and proposes at Start
+	}
+	for _, id := range []int{0, 1, 2} {
+		c.Nodes[id].Timeout(h, 0, "scripted") // nobody heard yet: recovery requests
+	}
+	deliverWhere(c, func(e *vnet.Envelope) bool { return e.P.T == dbft.RecoveryRequestType })
+	deliverWhere(c, func(e *vnet.Envelope) bool { return e.P.T == dbft.PrepareRequestType && e.To == 0 })
+	for _, id := range []int{1, 0, 2} {
+		c.Nodes[id].Timeout(h, 0, "scripted") // change view requests
+	}
+	deliverWhere(c, func(e *vnet.Envelope) bool { return e.P.T == dbft.ChangeViewType && (e.To == 0 || e.To == 2) })
+	deliverWhere(c, func(e *vnet.Envelope) bool { return e.To == 1 && e.P.T == dbft.PrepareRequestType })
+	deliverWhere(c, func(e *vnet.Envelope) bool { return e.To == 1 && e.P.T == dbft.PrepareResponseType && e.P.View == 0 })
+	deliverWhere(c, func(e *vnet.Envelope) bool { return e.To == 3 && e.P.T == dbft.PrepareResponseType && e.P.View == 0 })
+	c.NoteFault() // GST: from here on everything is delivered in time
+	c.Run(nil)
+	return &Built{C: c, Spec: Spec{Profile: cfg.Profile, Idx: -1, Seed: cfg.Seed}}
+}
